@@ -2,6 +2,7 @@ package main
 
 import (
 	"fmt"
+	"go/constant"
 	"go/token"
 	"go/types"
 	"sort"
@@ -77,15 +78,15 @@ type panicReview struct {
 
 func reviewedPanics() map[string]panicReview {
 	return map[string]panicReview{
-		"entity/dag.IdOperation": {"ids of decoded operations are set by unmarshallPack (setId on every operation); json.Marshal of an operation cannot fail", obligSetIdOnEveryOp},
-		"entity/dag.OpBase.setId": {"decoded operations are freshly allocated by the unmarshaler, so no id is set yet", obligSetIdOnEveryOp},
-		"entity/dag.operationPack.Id": {"packs read from git carry the id derived from the stored blob", obligPackIdFromBlob},
-		"entities/identity.version.Id": {"version.UnmarshalJSON derives the id from the raw bytes on its success path", obligVersionIdSet},
+		"entity/dag.IdOperation":                 {"ids of decoded operations are set by unmarshallPack (setId on every operation); json.Marshal of an operation cannot fail", obligSetIdOnEveryOp},
+		"entity/dag.OpBase.setId":                {"decoded operations are freshly allocated by the unmarshaler, so no id is set yet", obligSetIdOnEveryOp},
+		"entity/dag.operationPack.Id":            {"packs read from git carry the id derived from the stored blob", obligPackIdFromBlob},
+		"entities/identity.version.Id":           {"version.UnmarshalJSON derives the id from the raw bytes on its success path", obligVersionIdSet},
 		"entities/identity.Identity.lastVersion": {"identity.read refuses an empty commit list, so a read identity has at least one version", obligIdentityNonEmpty},
-		"entities/identity.Key.PGPEntity": {"AddUserId is called with constant, valid arguments on a fresh entity", obligPGPEntityConst},
-		"entities/bug.Comment.CombinedId": {"every Comment is built with combinedId = entity.CombineIds(...)", obligCommentCombinedId},
-		"entities/bug.Snapshot.Id": {"every Snapshot is created by Compile with id = bug.Id(), and an operation id is never empty", obligSnapshotId},
-		"entities/identity.makeNonce": {"crypto/rand failure only", func(c *Ctx) (bool, string) { return true, "" }},
+		"entities/identity.Key.PGPEntity":        {"AddUserId is called with constant, valid arguments on a fresh entity", obligPGPEntityConst},
+		"entities/bug.Comment.CombinedId":        {"every Comment is built with combinedId = entity.CombineIds(...)", obligCommentCombinedId},
+		"entities/bug.Snapshot.Id":               {"every Snapshot is created by Compile with id = bug.Id(), and an operation id is never empty", obligSnapshotId},
+		"entities/identity.makeNonce":            {"crypto/rand failure only", func(c *Ctx) (bool, string) { return true, "" }},
 	}
 }
 
@@ -297,6 +298,7 @@ func runC07(c *Ctx) {
 	c.Doc("R7.7", "errors of encoding/json.Unmarshal in entity/dag, entities/bug, entities/identity are returned")
 	// a refused history leaves no trace in the local clocks; every commit is visited (shared with C05)
 	checkWitnessAll(c, "R5.3")
+	checkBugValidateShape(c)
 	roots := dataEntryPoints(w)
 	if len(roots) < 15 {
 		c.Violate("R7.1", "expected:entry-points", "module", fmt.Sprintf("only %d entry points resolved (reference ≥ 15)", len(roots)))
@@ -860,4 +862,132 @@ func checkEmptyEntityAndUseBeforeValidate(c *Ctx) {
 			}
 		}
 	}
+}
+
+// R7.10: Bug.Validate pins the shape every consumer relies on: the first operation is the
+// Create operation (it carries the author and the first comment the snapshot and the excerpt
+// dereference) and there is no other.
+func checkBugValidateShape(c *Ctx) {
+	w := c.W
+	c.Doc("R7.10", "Bug.Validate propagates Entity.Validate's error, fails iff the first operation is absent or its Type() is not CreateOp, and fails iff any operation other than the one at index 0 has Type() CreateOp; the success return lies behind all three")
+	fn := w.Method("entities/bug", "Bug", "Validate")
+	if fn == nil {
+		c.Undecided("R7.10", "anchor:Bug.Validate", "entities/bug", "not found")
+		return
+	}
+	c.seeFn(funcName(fn))
+	pos := w.FnPos(fn)
+	createK := int64(-1)
+	if p := w.Pkg("entities/bug"); p != nil {
+		if kc, ok := p.Types.Scope().Lookup("CreateOp").(*types.Const); ok {
+			if v, exact := constant.Int64Val(kc.Val()); exact {
+				createK = v
+			}
+		}
+	}
+	if createK < 0 {
+		c.Undecided("R7.10", "anchor:bug.CreateOp", "entities/bug", "constant not found")
+		return
+	}
+	typeOf := func(v ssa.Value) ssa.Value { // receiver of a .Type() call
+		cv, isCall := v.(*ssa.Call)
+		if !isCall {
+			return nil
+		}
+		if n, _ := callName(cv.Common()); !strings.HasSuffix(n, ".Type") {
+			return nil
+		}
+		if cv.Common().IsInvoke() {
+			return cv.Common().Value
+		}
+		if len(cv.Common().Args) > 0 {
+			return cv.Common().Args[0]
+		}
+		return nil
+	}
+	firstIsCreate, othersNotCreate, whyOthers := false, false, "no refusal of a second Create operation found"
+	for _, g := range cmpGuards(fn, nil) {
+		c.Sites++
+		k, isK := constInt(g.Y)
+		recv := typeOf(g.X)
+		if !isK || k != createK || recv == nil {
+			continue
+		}
+		if g.Op == token.NEQ {
+			// the operation tested is the first one
+			for _, o := range origins(recv) {
+				if o.Kind == "call" && strings.HasSuffix(o.Name, ".FirstOp") {
+					firstIsCreate = true
+				}
+			}
+			if ld, isLd := recv.(*ssa.UnOp); isLd {
+				if ia, isIA := ld.X.(*ssa.IndexAddr); isIA {
+					if k0, isK0 := constInt(ia.Index); isK0 && k0 == 0 {
+						firstIsCreate = true
+					}
+				}
+			}
+		}
+		if g.Op == token.EQL {
+			// inside a scan of all operations, skipping index 0 only
+			ld, isLd := recv.(*ssa.UnOp)
+			if !isLd {
+				continue
+			}
+			ia, isIA := ld.X.(*ssa.IndexAddr)
+			if !isIA || !hasOriginCallAny(ia.X, ".Operations") {
+				continue
+			}
+			hdr := enclosingLoopHeader(g.If.Block())
+			if hdr == nil {
+				continue
+			}
+			ok := true
+			var bad *ssa.If
+			for _, cc := range controlConds(g.If.Block(), hdr.Idom()) {
+				if isLoopHeader(cc.If.Block()) {
+					continue
+				}
+				bo, isBo := cc.If.Cond.(*ssa.BinOp)
+				okCond := false
+				if isBo {
+					op := bo.Op
+					if cc.Edge == 1 {
+						op = negateOp(op)
+					}
+					kk, isKK := constInt(bo.Y)
+					okCond = bo.X == ia.Index && isKK && kk == 0 && op == token.NEQ
+				}
+				if !okCond {
+					ok, bad = false, cc.If
+				}
+			}
+			if ok {
+				othersNotCreate = true
+			} else if bad != nil {
+				whyOthers = "the scan for a second Create operation skips operations under the condition at " + w.InstrPos(bad)
+			}
+			if exits, _ := earlyLoopExits(fn); len(exits) > 0 {
+				othersNotCreate, whyOthers = false, "the scan over the operations is left early"
+			}
+		}
+	}
+	c.Check(firstIsCreate, "R7.10", "Bug.Validate:first-op-is-create", pos, "fails iff the first operation is not a Create", "Bug.Validate accepts a history whose first operation is not the Create operation: the snapshot then has no author/first comment and the excerpt build dereferences nil")
+	c.Check(othersNotCreate, "R7.10", "Bug.Validate:single-create", pos, "fails iff a later operation is a Create", whyOthers)
+	okEnt := false
+	for _, cl := range CallsNamed(fn, "entity/dag.Entity.Validate") {
+		if errorPropagated(cl.Value(), nil) {
+			okEnt = true
+		}
+	}
+	c.Check(okEnt, "R7.10", "Bug.Validate:entity-validate", pos, "Entity.Validate's error is returned", "Bug.Validate does not propagate the error of Entity.Validate")
+}
+
+func hasOriginCallAny(v ssa.Value, suffix string) bool {
+	for _, o := range origins(v) {
+		if o.Kind == "call" && strings.HasSuffix(o.Name, suffix) {
+			return true
+		}
+	}
+	return false
 }
